@@ -154,6 +154,8 @@ def desc_of(m):
 
 class C12(System):
     nontrivial_per_config = False
+    #: canon() holds the complete concrete state and the whole model; a config only selects the initial objects
+    merge_across_configs = True
 
     def __init__(self, name, universe, writes, cap, depth_q, depth_t, configs='seeds', max_views=2, max_snaps=0,
                  T_writes=(350.0,), P_writes=(), accessors=True, copy_like=False, init_snap=False,
